@@ -168,7 +168,7 @@ func segmentations(n int, budget int) []segmentation {
 	if n < 2 {
 		return out
 	}
-	if n <= 7 || (thorough && n <= 11) {
+	if n <= 7 || (thorough && n <= 9) {
 		for mask := 1; mask < 1<<uint(n-1); mask++ {
 			var cs []int
 			for i := 1; i < n; i++ {
